@@ -43,6 +43,7 @@ C_FUNCS = [
     ("tables.c", "tsk_edge_table_has_metadata"),
     ("tables.c", "tsk_node_table_append_columns"), ("tables.c", "tsk_node_table_set_columns"),
     ("tables.c", "tsk_node_table_extend"),
+    ("tables.c", "tsk_edge_table_extend"), ("tables.c", "tsk_migration_table_extend"), ("tables.c", "tsk_population_table_extend"),
     ("tables.c", "tsk_node_table_keep_rows"), ("tables.c", "tsk_mutation_table_keep_rows"),
     ("tables.c", "tsk_individual_table_keep_rows"),
     ("tables.c", "subset_ragged_double_column"), ("tables.c", "subset_remap_ragged_id_column"),
@@ -59,7 +60,7 @@ LEMMAS = ["lemmas.induction:offsets_transitive", "lemmas.induction:rank_bounds_a
           "lemmas.induction:newoff_bounds_and_monotone", "lemmas.induction:cum_nonnegative"]
 BOUNDED = [{"name": "list_model", "module": "standins.c13_listmodel", "timeout": 900, "asan": "thorough"}]
 UNVERIFIED = [              "edge tables created with TSK_TABLE_NO_METADATA (add_row contract covers the default variant)",
-              "tsk_*_table_update_row, _takeset_columns, _copy; _keep_rows of the edge, site, migration, population and provenance tables; _extend/_append_columns/_set_columns of the tables other than nodes",
+              "tsk_*_table_update_row, _takeset_columns, _copy; _keep_rows of the edge, site, migration, population and provenance tables; _extend of the tables with several ragged columns; _append_columns/_set_columns of the tables other than nodes",
               "python/tskit/tables.py facade", "TreeSequence immutability (numpy flags in _tskitmodule.c)"]
 ASSUMPTIONS = [
     "ghost functions rank/newoff: their defining recurrences plus bounds and monotonicity are given as axioms in "
